@@ -4,7 +4,7 @@ set -e
 cd "$(dirname "$0")"
 mkdir -p build evidence replays
 if [ -d rac ] && [ -f rac/Cargo.toml ]; then
-  (cd rac && CARGO_NET_OFFLINE=true cargo build --release --offline 2>&1 | tail -3) || echo "rac build failed (checks will report undecided for bounded parts)"
+  (cd rac && CARGO_NET_OFFLINE=true cargo build --offline 2>&1 | tail -3) || echo "rac build failed (checks will report undecided for bounded parts)"
 fi
 verus --version >/dev/null 2>&1 || { echo "verus missing"; exit 1; }
 echo setup-ok
